@@ -2,7 +2,11 @@
 //! Direct part: UriBuilder on the client side, path_param / parse_query_params /
 //! query_param on the server side, judged by an independent RFC 3986 tokenizer/decoder.
 
+use conjure_error::Error;
+use conjure_http::client::{Client, DisplaySeqEncoder, Service as _};
 use conjure_http::private::{parse_query_params, path_param, query_param, UriBuilder};
+use conjure_http::{conjure_client, endpoint};
+use std::sync::Mutex;
 use conjure_http::server::conjure::{FromPlainDecoder, FromPlainSeqDecoder};
 use conjure_http::server::ConjureRuntime;
 use conjure_http::PathParams;
@@ -23,19 +27,69 @@ struct Template {
     segs: Vec<Seg>,
     /// query keys in emission order; a repeated key = list parameter
     keys: Vec<&'static str>,
+    /// None: UriBuilder driven the way generated clients drive it; Some: a
+    /// `#[conjure_client]` method whose request URI is captured
+    producer: Option<fn(&[String]) -> Result<http::Uri, String>>,
 }
 
 fn templates() -> Vec<Template> {
     use Seg::*;
     vec![
-        Template { name: "/lit/{p}", segs: vec![Lit("lit"), Param], keys: vec![] },
-        Template { name: "/{p}/{p}", segs: vec![Param, Param], keys: vec![] },
-        Template { name: "/lit/{p}/mid/{p}/{p}", segs: vec![Lit("lit"), Param, Lit("mid"), Param, Param], keys: vec![] },
-        Template { name: "/lit?k0", segs: vec![Lit("lit")], keys: vec!["k0"] },
-        Template { name: "/lit/{p}?k0&k1", segs: vec![Lit("lit"), Param], keys: vec!["k0", "k1"] },
-        Template { name: "/a/b?list*3", segs: vec![Lit("a"), Lit("b")], keys: vec!["list", "list", "list"] },
-        Template { name: "/{p}?k0&list*2&k1", segs: vec![Param], keys: vec!["k0", "list", "list", "k1"] },
+        Template { name: "/lit/{p}", segs: vec![Lit("lit"), Param], keys: vec![], producer: None },
+        Template { name: "/{p}/{p}", segs: vec![Param, Param], keys: vec![], producer: None },
+        Template { name: "/lit/{p}/mid/{p}/{p}", segs: vec![Lit("lit"), Param, Lit("mid"), Param, Param], keys: vec![], producer: None },
+        Template { name: "/lit?k0", segs: vec![Lit("lit")], keys: vec!["k0"], producer: None },
+        Template { name: "/lit/{p}?k0&k1", segs: vec![Lit("lit"), Param], keys: vec!["k0", "k1"], producer: None },
+        Template { name: "/a/b?list*3", segs: vec![Lit("a"), Lit("b")], keys: vec!["list", "list", "list"], producer: None },
+        Template { name: "/{p}?k0&list*2&k1", segs: vec![Param], keys: vec!["k0", "list", "list", "k1"], producer: None },
+        // macro-derived clients: literals and query keys with characters of every encode-set level
+        Template {
+            name: "macro:/w/a b/{p}/x%y/{r}/q?z/h#i/{s}/end&=+,;?k&=y&p q#r+s%t?u/v&plain",
+            segs: vec![Lit("w"), Lit("a b"), Param, Lit("x%y"), Param, Lit("q?z"), Lit("h#i"), Param, Lit("end&=+,;")],
+            keys: vec!["k&=y", "p q#r+s%t?u/v", "plain"],
+            producer: Some(|v| capture(|c| WeirdApiClient::new(c).weird(&v[0], &v[1], &v[2], &v[3], &v[4], &v[5]))),
+        },
+        Template {
+            name: "macro:/m/{p}/é/{r}?list*2&k é&opt",
+            segs: vec![Lit("m"), Param, Lit("\u{e9}"), Param],
+            keys: vec!["list", "list", "k \u{e9}", "opt"],
+            producer: Some(|v| capture(|c| WeirdApiClient::new(c).listy(&v[0], &v[1], &v[2..4], &v[4], Some(&v[5])))),
+        },
+        Template { name: "macro:/{p}", segs: vec![Param], keys: vec![], producer: Some(|v| capture(|c| WeirdApiClient::new(c).bare(&v[0]))) },
     ]
+}
+
+/// literals and query keys containing characters of every encode-set level
+#[conjure_client(name = "Weird")]
+trait WeirdApi {
+    #[endpoint(method = GET, path = "/w/a b/{p}/x%y/{r}/q?z/h#i/{s}/end&=+,;")]
+    fn weird(&self, #[path] p: &str, #[path] r: &str, #[path] s: &str, #[query(name = "k&=y")] a: &str, #[query(name = "p q#r+s%t?u/v")] b: &str, #[query(name = "plain")] c: &str) -> Result<(), Error>;
+
+    #[endpoint(method = GET, path = "/m/{p}/\u{e9}/{r}")]
+    fn listy(&self, #[path] p: &str, #[path] r: &str, #[query(name = "list", encoder = DisplaySeqEncoder)] list: &[String], #[query(name = "k \u{e9}")] k: &str, #[query(name = "opt", encoder = DisplaySeqEncoder)] opt: Option<&String>) -> Result<(), Error>;
+
+    #[endpoint(method = GET, path = "/{p}")]
+    fn bare(&self, #[path] p: &str) -> Result<(), Error>;
+}
+
+struct Capture(Mutex<Option<http::Uri>>);
+
+impl Client for &Capture {
+    type BodyWriter = Vec<u8>;
+    type ResponseBody = std::iter::Empty<Result<bytes::Bytes, Error>>;
+    fn send(&self, req: Request<conjure_http::client::RequestBody<'_, Vec<u8>>>) -> Result<http::Response<Self::ResponseBody>, Error> {
+        *self.0.lock().unwrap() = Some(req.uri().clone());
+        let mut resp = http::Response::new(std::iter::empty());
+        *resp.status_mut() = http::StatusCode::NO_CONTENT;
+        Ok(resp)
+    }
+}
+
+fn capture(f: impl FnOnce(&Capture) -> Result<(), Error>) -> Result<http::Uri, String> {
+    let cap = Capture(Mutex::new(None));
+    vcommon::catch(|| f(&cap)).and_then(|x| x.map_err(|e| format!("client error: {}", e.cause())))?;
+    let got = cap.0.lock().unwrap().take();
+    got.ok_or_else(|| "no request sent".to_string())
 }
 
 impl Template {
@@ -110,6 +164,9 @@ fn tokenize(uri: &str) -> Result<Parsed<'_>, String> {
 // ---------------------------------------------------------------- one case
 
 fn build(t: &Template, vals: &[String]) -> Result<http::Uri, String> {
+    if let Some(p) = t.producer {
+        return p(vals);
+    }
     vcommon::catch(|| {
         let mut b = UriBuilder::new();
         let mut vi = 0;
@@ -216,8 +273,9 @@ fn check_len(t: &Template, vals: &[String], rt: &ConjureRuntime, r: &mut Report,
     for (i, (s, raw)) in t.segs.iter().zip(&parsed.segments).enumerate() {
         match s {
             Seg::Lit(l) => {
-                if raw != l {
-                    fail(r, "literal-altered", format!("URI {:?}: literal segment {} is {:?}", text, l, raw));
+                let same = if t.producer.is_some() { pct_decode(raw, false).as_deref() == Some(l.as_bytes()) } else { raw == l };
+                if !same {
+                    fail(r, "literal-altered", format!("URI {:?}: literal segment {:?} is {:?}", text, l, raw));
                 }
             }
             Seg::Param => {
@@ -250,7 +308,8 @@ fn check_len(t: &Template, vals: &[String], rt: &ConjureRuntime, r: &mut Report,
                 continue;
             }
         };
-        if pk != *k {
+        let same_key = if t.producer.is_some() { pct_decode(pk, true).as_deref() == Some(k.as_bytes()) } else { pk == *k };
+        if !same_key {
             fail(r, "key-altered", format!("URI {:?}: pair {} has key {:?}, declared {:?}", text, j, pk, k));
         }
         if pv.contains('=') {
